@@ -20,7 +20,7 @@ import (
 // nothing is hard-coded here, so new branches are reached as soon as they are written.
 
 var (
-	harvestOnce sync.Once
+	harvestOnce   sync.Once
 	harvestCond   []string   // literals used in conditions
 	harvestAll    []string   // every other word-like literal
 	harvestGroups [][]string // condition literals that sit within a few lines of each other (one decision)
